@@ -443,11 +443,11 @@ def run_python_part(ctx, coq_ok):
         cases.append((s, "small", "exhaustive"))
     for s in gen_grid(ctx.tier):
         cases.append((s, "big", "grid"))
-    for _ in range(2500 if quick else 20000):
+    for _ in range(1600 if quick else 20000):
         cases.append((gen_tree(rng), "big", "random"))
-    for _ in range(300 if quick else 2000):
+    for _ in range(200 if quick else 2000):
         cases.append((gen_tree(rng), "nomagic", "random-nomagic"))
-    for _ in range(700 if quick else 6000):
+    for _ in range(500 if quick else 6000):
         cases.append((gen_malformed(rng), "big", "malformed"))
     seen = set()
     uniq = []
@@ -471,7 +471,7 @@ def run_python_part(ctx, coq_ok):
                                       {"source_pattern": subs[0][0], "source_repl": subs[0][1], "modelled": [DOT_PATTERN, DOT_REPL]})
         if not subs or any(c[2] != s or c[3] != subs[0][3] for c in subs):
             ctx.broken_obligation("adapter: render_func did not call re.sub on the raw string", {"input": s, "calls": len(subs)})
-            return
+            return lits, expect
         hacked = subs[0][3]
         # -- monitor: the arbiter decides
         arb = arbiter(s, live)
@@ -513,10 +513,14 @@ def run_python_part(ctx, coq_ok):
         lits.append("(%s, %s)" % (coq.ctext(s), orc.coq("kw_" + cname)))
         expect.append((s, cname, rendered, direct, hacked, arb))
     ctx.coverage_extra["python_cases"] = len(cases)
-    if not coq_ok:
-        return
-    defs = "".join("Definition kw_%s : list (text * nat) := %s.\n" % (cname, Oracle(dict_ctx(cname)).kw_coq()) for cname in CONTEXTS)
-    model = coq.eval_sharded(["Model.PyFormat"], MODEL_FN, lits, shard=800, jobs=4, defs=defs)
+    return lits, expect
+
+
+def python_defs():
+    return "".join("Definition kw_%s : list (text * nat) := %s.\n" % (cname, Oracle(dict_ctx(cname)).kw_coq()) for cname in CONTEXTS)
+
+
+def check_python_model(ctx, expect, model):
     for e, m in zip(expect, model):
         s, cname, rendered, direct, hacked, arb = e
         got = "".join(chr(c) for c in m[0])
@@ -543,7 +547,7 @@ def run_python_part(ctx, coq_ok):
             ctx.broken_obligation("correspondence Model.PyFormat.spec_process vs the string.Formatter arbiter",
                                   {"input": s, "context": cname, "model": m_spec, "arbiter": arb})
             break
-    ctx.coverage_extra["python_model_vs_impl_cases"] = len(lits)
+    ctx.coverage_extra["python_model_vs_impl_cases"] = len(expect)
 
 
 def dict_ctx(cname):
@@ -596,5 +600,367 @@ def canon_pyparse(s):
     return out
 
 
+# ==============================================================================================================
+# Part B — placeholder templater
+# ==============================================================================================================
+
+NAMED = {
+    "colon": lambda n, q: ":" + n,
+    "colon_optional_quotes": lambda n, q: ":" + q + n + q,
+    "colon_nospaces": lambda n, q: ":" + n,
+    "numeric_colon": lambda n, q: ":" + n,
+    "pyformat": lambda n, q: "%(" + n + ")s",
+    "dollar": lambda n, q: ("${" + n + "}") if q else ("$" + n),
+    "dollar_surround": lambda n, q: "$" + n + "$",
+    "flyway_var": lambda n, q: "${" + n + "}",
+    "question_mark": lambda n, q: "?",
+    "numeric_dollar": lambda n, q: ("${" + n + "}") if q else ("$" + n),
+    "percent": lambda n, q: "%s",
+    "ampersand": lambda n, q: ("&{" + n + "}") if q else ("&" + n),
+}
+POSITIONAL = {"question_mark", "percent"}
+NUMERIC = {"numeric_colon", "numeric_dollar"}
+WORD_NAMES = ["name", "user_id", "x", "Tbl1", "_p", "né", "long_parameter_name_7", "a1"]
+STYLE_NAMES = {"dollar_surround": WORD_NAMES + ["my-var", "a-b-c"], "flyway_var": ["flyway:database", "ab", "env:x_y", "defaultSchema"]}
+# literal pieces: none contains a placeholder sigil; the middle ones start and end with characters that can neither extend a
+# parameter name nor block a look-behind
+LIT_FIRST = ["", "SELECT ", "select a, b from t where x = ", "-- c\n", "\n", "  ", "(", "x::int, "]
+LIT_MID = [" ", ", ", " AND y = ", ")\n  OR z IN (", " + 1 - ", "\n", " /* é */ ", " = 'lit' AND ", ",\n    ", " ; "]
+LIT_LAST = ["", " ", "\n", " FROM tbl", ");", " -- end", " 'q'"]
+VALUES = ["'v1'", "42", "tbl", "", "a b", "né é", "NULL", "x.y", "$1", ":name", "%s"]
+
+
+def gen_placeholder_case(rng, style):
+    """-> (source, user context, expected output, number of parameters)"""
+    k = rng.choice([0, 1, 1, 2, 2, 3, 4, 6])
+    pool = STYLE_NAMES.get(style, WORD_NAMES)
+    pieces = [("lit", rng.choice(LIT_FIRST))]
+    names = []
+    for i in range(k):
+        if style in POSITIONAL:
+            name = str(i + 1)
+        elif style in NUMERIC:
+            name = str(rng.choice([1, 2, 3, 10, 25]))
+        else:
+            name = rng.choice(pool)
+        if style == "colon_optional_quotes":
+            q = rng.choice(["", "'", '"'])
+        elif style in ("dollar", "numeric_dollar", "ampersand"):
+            q = rng.choice(["", "{"])
+        else:
+            q = ""
+        names.append(name)
+        pieces.append(("param", name, q))
+        if i < k - 1:
+            if style == "question_mark" and rng.random() < 0.15:
+                pieces.append(("lit", ""))
+            else:
+                pieces.append(("lit", rng.choice(LIT_MID)))
+    last = rng.choice(LIT_LAST)
+    if k and last and style == "dollar_surround" and False:
+        pass
+    pieces.append(("lit", last))
+    mode = rng.choice(["full", "partial", "empty"])
+    user = {}
+    for n in set(names):
+        if mode == "full" or (mode == "partial" and rng.random() < 0.5):
+            user[n] = rng.choice(VALUES) if rng.random() < 0.85 else rng.choice([7, 2.5, True])
+    src, exp = [], []
+    for pc in pieces:
+        if pc[0] == "lit":
+            src.append(pc[1])
+            exp.append(pc[1])
+        else:
+            _p, name, q = pc
+            src.append(NAMED[style](name, q))
+            body = str(user[name]) if name in user else name
+            exp.append((q + body + q) if style == "colon_optional_quotes" else body)
+    return "".join(src), user, "".join(exp), k
+
+
+class FakeMatch:
+    def __init__(self, span, groups):
+        self._span, self._groups = span, groups
+
+    def span(self):
+        return self._span
+
+    def groupdict(self):
+        return dict(self._groups)
+
+    def __getitem__(self, k):
+        return self._groups[k]
+
+
+class FakeRegex:
+    def __init__(self, matches):
+        self.matches = matches
+
+    def finditer(self, s):
+        return iter(self.matches)
+
+
+class RealPlaceholder:
+    def __init__(self):
+        import sqlfluff.core.templaters.placeholder as phmod
+        from sqlfluff.core import FluffConfig
+        self.phmod = phmod
+        self.FluffConfig = FluffConfig
+        self.cfg = FluffConfig(overrides={"dialect": "ansi", "templater": "placeholder"})
+
+    @staticmethod
+    def _canon(tf_src, tf_out, sliced, raw):
+        return (tf_out,
+                [(t.slice_type, t.source_slice.start, t.source_slice.stop, t.templated_slice.start, t.templated_slice.stop) for t in sliced],
+                [(r.raw, r.slice_type, r.source_idx) for r in raw])
+
+    def run(self, src, user_ctx, style, via_config=False):
+        """the real templater, end to end -> (('ok', (out, tslices, rslices)) | ('exc', type), live context, real matches)"""
+        ph = self.phmod
+        c = dict(user_ctx)
+        c["param_style"] = style
+        if via_config:
+            cfg = self.FluffConfig(overrides={"dialect": "ansi", "templater": "placeholder"}, configs={"templater": {"placeholder": c}})
+            t = ph.PlaceholderTemplater()
+        else:
+            cfg = self.cfg
+            t = ph.PlaceholderTemplater(override_context=c)
+        live = t.get_context("t.sql", cfg)
+        rx = live["__bind_param_regex"]
+        matches = []
+        for m in rx.finditer(src):
+            gd = m.groupdict()
+            matches.append((m.span()[0], m.span()[1], gd.get("param_name") if "param_name" in gd else None, "param_name" in gd,
+                            gd.get("quotation") if "quotation" in gd else None, "quotation" in gd))
+        try:
+            tf, errs = t.process(in_str=src, fname="t.sql", config=cfg)
+            res = ("ok", self._canon(src, tf.templated_str, tf.sliced_file, tf.raw_sliced), len(errs))
+        except Exception as e:
+            res = ("exc", type(e).__name__)
+        return res, live, matches
+
+    def run_fake(self, src, ctx_strs, fake_matches):
+        """the real process loop driven by a fake regex (arbitrary spans); TemplatedFile replaced by a recorder"""
+        ph = self.phmod
+        live = dict(ctx_strs)
+        live["__bind_param_regex"] = FakeRegex([FakeMatch((a, b), dict(([("param_name", n)] if hn else []) + ([("quotation", q)] if hq else [])))
+                                                for (a, b, n, hn, q, hq) in fake_matches])
+        t = ph.PlaceholderTemplater()
+        t.get_context = lambda fname, config: live
+        saved = ph.TemplatedFile
+        ph.TemplatedFile = lambda **kw: kw
+        try:
+            kw, _errs = t.process(in_str=src, fname="t.sql", config=self.cfg)
+            return ("ok", self._canon(src, kw["templated_str"], kw["sliced_file"], kw["raw_sliced"]))
+        except Exception as e:
+            return ("exc", type(e).__name__)
+        finally:
+            ph.TemplatedFile = saved
+
+
+def cmatch(m):
+    a, b, n, hn, q, hq = m
+    return "(mkPm %d %d %s %s)" % (a, b, "(Some %s)" % coq.ctext(n) if hn else "None", "(Some %s)" % coq.ctext(q) if hq else "None")
+
+
+def cph_case(src, ctx_strs, matches):
+    tab = coq.clist(["(%s, %s)" % (coq.ctext(k), coq.ctext(v)) for k, v in ctx_strs.items()]) if ctx_strs else "(@nil (text * text))"
+    ms = coq.clist([cmatch(m) for m in matches]) if matches else "(@nil pmatch)"
+    return "(%s, %s, %s)" % (coq.ctext(src), tab, ms)
+
+
+PH_FN = ("fun c : text * list (text * text) * list pmatch => let '(src, tab, ms) := c in let '(out, ts, rs) := ph_process (ctx_of tab) src ms in "
+         "(out, map (fun t => (ts_templated t, ts_src t, ts_tpl t)) ts, map (fun r => (rs_raw r, rs_templated r, rs_idx r)) rs)")
+
+
+def canon_model(m):
+    out, ts, rs = m
+    return ("".join(chr(c) for c in out),
+            [("templated" if t[0] else "literal", t[1][0], t[1][1], t[2][0], t[2][1]) for t in ts],
+            [("".join(chr(c) for c in r[0]), "templated" if r[1] else "literal", r[2]) for r in rs])
+
+
+def tf_ok(src, out, tslices, rslices):
+    """independent statement of `slices tile source and output` (shared with C07)"""
+    pos_s = pos_t = 0
+    for (kind, a, b, c, d) in tslices:
+        if a != pos_s or c != pos_t or b < a or d < c:
+            return "templated-file slices are not contiguous"
+        if kind == "literal" and src[a:b] != out[c:d]:
+            return "a literal slice maps to different text"
+        pos_s, pos_t = b, d
+    if pos_s != len(src) or pos_t != len(out):
+        return "slices do not cover source/output"
+    if "".join(r[0] for r in rslices) != src:
+        return "raw slices do not concatenate to the source"
+    pos = 0
+    for (raw, _k, idx) in rslices:
+        if idx != pos:
+            return "raw slice source_idx is not the running offset"
+        pos += len(raw)
+    return None
+
+
+def run_placeholder_part(ctx, coq_ok):
+    real = RealPlaceholder()
+    rng = ctx.rng
+    quick = ctx.tier == "quick"
+    from sqlfluff.core.templaters.placeholder import KNOWN_STYLES
+    styles = list(KNOWN_STYLES)
+    if set(styles) != set(NAMED):
+        ctx.broken_obligation("model out of date: KNOWN_STYLES changed", {"source": sorted(styles), "harness": sorted(NAMED)})
+    lits, expect = [], []
+
+    def record(src, live, matches, res, what):
+        # the model asks the context only about parameter names: ship exactly those entries (str() of the live value)
+        asked, cnt = [], 1
+        for m in matches:
+            if m[3]:
+                asked.append(m[2])
+            else:
+                asked.append(str(cnt))
+                cnt += 1
+        strs = {k: str(live[k]) for k in asked if k is not None and k in live}
+        lits.append(cph_case(src, strs, matches))
+        expect.append((src, what, matches, res))
+
+    # -- B1. by-construction oracle, every style, with / without values
+    per_style = 40 if quick else 700
+    for style in styles:
+        if style not in NAMED:
+            continue
+        for i in range(per_style):
+            src, user, exp, k = gen_placeholder_case(rng, style)
+            via_config = (i % 5 == 4) and all(isinstance(v, str) for v in user.values()) and style != "flyway_var"
+            res, live, matches = real.run(src, user, style, via_config=via_config)
+            inp = {"source": src, "style": style, "values": user, "via_config": via_config}
+            ctx.case((src, style, repr(sorted(user.items()))) if k else None, bucket="ph:%s" % style,
+                     sample=dict(inp, rendered=res[1][0] if res[0] == "ok" else res) if k >= 2 and i < 3 else None)
+            if any(m[3] and m[2] is None for m in matches):
+                ctx.broken_obligation("placeholder model assumption: param_name group did not participate in a match", inp)
+            if any(matches[j][1] > matches[j + 1][0] for j in range(len(matches) - 1)) or any(m[0] > m[1] for m in matches):
+                ctx.broken_obligation("finditer oracle assumption violated: spans unsorted or overlapping", inp)
+            if via_config:
+                # values configured in the config file section are strings after config parsing; compare on str()
+                pass
+            if res[0] != "ok":
+                ctx.violation("placeholder-raises", "placeholder templater raised %s on generated SQL" % res[1], {"input": inp},
+                              attrs={"style": style, "exception": res[1]})
+            else:
+                out, ts, rs = res[1]
+                if out != exp:
+                    ctx.violation("placeholder-render", "placeholder templater output is not the source with each parameter replaced by its "
+                                  "configured value (or kept name)", {"input": inp, "expected": exp, "got": out}, attrs={"style": style})
+                bad = tf_ok(src, out, ts, rs)
+                if bad:
+                    ctx.violation("placeholder-slices", "placeholder templater: " + bad, {"input": inp, "slices": ts, "raw": rs}, attrs={"style": style})
+                if res[2]:
+                    ctx.violation("placeholder-errors", "placeholder templater returned templating errors", {"input": inp}, attrs={"style": style})
+            record(src, live, matches, res, {"style": style, "values": user})
+    # -- B2. names that collide with keys the templater itself puts in the context
+    for style, src, user, exp, mech in [
+        ("colon", "SELECT :param_style, :x", {"x": "1"}, "SELECT colon, 1", "configured-section-key"),
+        ("colon", "SELECT :__bind_param_regex FROM t", {}, "SELECT __bind_param_regex FROM t", "context-key-added-by-get_context"),
+        ("pyformat", "SELECT %(__bind_param_regex)s", {}, "SELECT __bind_param_regex", "context-key-added-by-get_context"),
+    ]:
+        res, live, matches = real.run(src, user, style)
+        ctx.case((src, style), bucket="ph:collision")
+        if res[0] != "ok" or res[1][0] != exp:
+            ctx.violation("placeholder-internal-key", "placeholder templater replaces a parameter that has no configured value by the str() of an "
+                          "internal context entry instead of keeping its name", {"input": {"source": src, "style": style, "values": user},
+                                                                               "expected": exp, "got": res[1][0] if res[0] == "ok" else res},
+                          attrs={"mechanism": mech})
+        record(src, live, matches, res, {"style": style, "values": user})
+    # -- B3. correspondence only: random strings full of sigils through the real regexes
+    alpha = ":$%?&{}()'\"\\sa1_- \n"
+    for _ in range(300 if quick else 12000):
+        style = rng.choice(styles)
+        src = "".join(rng.choice(alpha) for _ in range(rng.randrange(0, 14)))
+        user = {n: rng.choice(VALUES) for n in ["a", "s", "1", "a1", "sa", "11", "2"] if rng.random() < 0.5}
+        res, live, matches = real.run(src, user, style)
+        ctx.case(None, bucket="ph:random-sigils")
+        if res[0] == "ok":
+            bad = tf_ok(src, res[1][0], res[1][1], res[1][2])
+            if bad:
+                ctx.violation("placeholder-slices", "placeholder templater: " + bad, {"input": {"source": src, "style": style, "values": user}},
+                              attrs={"style": style})
+        else:
+            ctx.violation("placeholder-raises", "placeholder templater raised %s" % res[1], {"input": {"source": src, "style": style, "values": user}},
+                          attrs={"style": style, "exception": res[1]})
+        record(src, live, matches, res, {"style": style, "values": user})
+    # -- B4. correspondence only: the loop itself on arbitrary (also unsorted / overlapping) span lists, via a fake regex
+    src4 = "abcd"
+    spans = [(a, b) for a in range(5) for b in range(a, 5)]
+    kinds = [(None, False, None, False), ("k", True, None, False), ("zz", True, None, False), ("k", True, "'", True), (None, False, "\"", True)]
+    ctx4 = {"k": "VAL", "1": "ONE", "2": ""}
+    fake_cases = [[]]
+    for sp in spans:
+        for kd in kinds:
+            fake_cases.append([sp + kd])
+    pairs = list(itertools.product(spans, repeat=2))
+    for (s1, s2) in pairs:
+        for (k1, k2) in ((kinds[0], kinds[0]), (kinds[1], kinds[0]), (kinds[0], kinds[3]), (kinds[2], kinds[4])):
+            if quick and (s1[0] + 2 * s2[1] + len(k1[0] or "")) % 7:
+                continue
+            fake_cases.append([s1 + k1, s2 + k2])
+    for _ in range(60 if quick else 3000):
+        n = rng.choice([3, 4, 12])
+        fake_cases.append([(lambda a, b: (min(a, b), max(a, b)))(rng.randrange(0, 8), rng.randrange(0, 8)) + rng.choice(kinds) for _ in range(n)])
+    for fm in fake_cases:
+        res = real.run_fake(src4, ctx4, fm)
+        sorted_ok = all(fm[j][1] <= fm[j + 1][0] for j in range(len(fm) - 1)) and all(m[1] <= len(src4) for m in fm)
+        ctx.case(None, bucket="ph:fake-spans:%s" % ("sorted" if sorted_ok else "malformed"))
+        if sorted_ok and res[0] == "ok":
+            bad = tf_ok(src4, res[1][0], res[1][1], res[1][2])
+            if bad:
+                ctx.violation("placeholder-slices", "placeholder loop on a sorted span list: " + bad, {"input": {"source": src4, "matches": fm}},
+                              attrs={"style": "fake"})
+        lits.append(cph_case(src4, ctx4, fm))
+        expect.append((src4, {"fake": True}, fm, res))
+    ctx.coverage_extra["placeholder_cases"] = len(lits)
+    return lits, expect
+
+
+def check_placeholder_model(ctx, expect, model):
+    for (src, what, matches, res), m in zip(expect, model):
+        mm = canon_model(m)
+        if res[0] != "ok" or tuple(res[1]) != mm:
+            ctx.broken_obligation("correspondence Model.Placeholder.ph_process vs PlaceholderTemplater.process",
+                                  {"input": {"source": src, "what": what, "matches": matches}, "model": mm, "impl": res})
+            break
+    ctx.coverage_extra["placeholder_model_vs_impl_cases"] = len(expect)
+
+
+def submit_shards(pool, imports, func, lits, nshards, defs=""):
+    """evaluate `func c` for every literal with vm_compute, as nshards coqc jobs on the shared pool -> list of futures"""
+    if not lits:
+        return []
+    size = max(1, -(-len(lits) // nshards))
+    futs = []
+    for sh in coq.chunked(lits, size):
+        term = "map (%s) %s" % (func, coq.clist(sh))
+        futs.append((len(sh), pool.submit(lambda t=term: coq.eval_terms(imports, [t], defs=defs, timeout=1500)[0])))
+    return futs
+
+
+def gather(futs):
+    out = []
+    for n, f in futs:
+        part = f.result()
+        if len(part) != n:
+            raise coq.CoqError("shard result length mismatch %d vs %d" % (len(part), n))
+        out.extend(part)
+    return out
+
+
 def run(ctx, coq_ok):
-    run_python_part(ctx, coq_ok)
+    from concurrent.futures import ThreadPoolExecutor
+    quick = ctx.tier == "quick"
+    with ThreadPoolExecutor(max_workers=4) as pool:   # never more than 4 coqc processes
+        ph_lits, ph_expect = run_placeholder_part(ctx, coq_ok)
+        ph_futs = submit_shards(pool, ["Model.Placeholder"], PH_FN, ph_lits, 1 if quick else 8) if coq_ok else []
+        py_lits, py_expect = run_python_part(ctx, coq_ok)
+        py_futs = submit_shards(pool, ["Model.PyFormat"], MODEL_FN, py_lits, 7 if quick else 48, defs=python_defs()) if coq_ok else []
+        if coq_ok:
+            check_placeholder_model(ctx, ph_expect, gather(ph_futs))
+            check_python_model(ctx, py_expect, gather(py_futs))
